@@ -129,6 +129,42 @@ def gen_histories(ctx, prop):
     return uniq, simh, ex, sim
 
 
+def wide_histories(n):
+    """Many sessions at once (far beyond the exhaustive bounds): n LOGIN records, a cleanup pass that finds all of them
+    stale, then the logins; n parked logins, a cleanup pass, then the LOGIN records; and n sessions correlated before the
+    pass (nothing of them may be dropped).  One cleanup pass handles them all."""
+    def A(tag, s, typ, pid, at):
+        return {"k": "audit", "tag": tag, "sess": s, "typ": typ, "pid": pid, "res": "success", "args": False, "at": at}
+
+    def L(i, p, at):
+        return {"k": "login", "id": i, "pid": p, "at": at}
+    S = ["s%d" % i for i in range(1, n + 1)]
+    h1 = [A(i + 1, S[i], "LOGIN", i + 1, 0) for i in range(n)] + [{"k": "tick"}, {"k": "cleanS", "c": 1}] \
+        + [L(i + 1, i + 1, 1) for i in range(n)] + [A(n + i + 1, S[i], "OTHER", 0, 1) for i in range(n)]
+    h2 = [L(i + 1, i + 1, 0) for i in range(n)] + [{"k": "tick"}, {"k": "cleanL", "c": 1}] \
+        + [A(i + 1, S[i], "LOGIN", i + 1, 1) for i in range(n)] + [A(n + i + 1, S[i], "OTHER", 0, 1) for i in range(n)]
+    h3 = [x for i in range(n) for x in (A(i + 1, S[i], "LOGIN", i + 1, 0), L(i + 1, i + 1, 0))] \
+        + [{"k": "tick"}, {"k": "cleanS", "c": 1}, {"k": "cleanL", "c": 1}] + [A(n + i + 1, S[i], "OTHER", 0, 1) for i in range(n)]
+    # half of them stale, half young: the pass keeps exactly the young ones
+    m = n // 2
+    h4 = [A(i + 1, S[i], "LOGIN", i + 1, 0) for i in range(m)] + [{"k": "tick"}] \
+        + [A(i + 1, S[i], "LOGIN", i + 1, 1) for i in range(m, n)] + [{"k": "cleanS", "c": 1}] \
+        + [L(i + 1, i + 1, 1) for i in range(n)] + [A(n + i + 1, S[i], "OTHER", 0, 1) for i in range(n)]
+    return [h1, h2, h3, h4]
+
+
+def long_queue_histories(k):
+    """One session with k events held before its login arrives: mid-session (more events follow) and after the session
+    has ended.  Every held event is flushed, once, in order, before anything newer."""
+    def A(tag, typ, pid=0):
+        return {"k": "audit", "tag": tag, "sess": "s1", "typ": typ, "pid": pid, "res": "success", "args": False, "at": 0}
+    held = [A(1, "LOGIN", 1)] + [A(t, "OTHER") for t in range(2, k + 1)]
+    login = {"k": "login", "id": 1, "pid": 1, "at": 0}
+    mid = held + [login] + [A(t, "OTHER") for t in range(k + 1, k + 6)] + [A(k + 6, "CRED_DISP")]
+    ended = held + [A(k + 1, "CRED_DISP"), login]
+    return [mid, ended]
+
+
 def write_hists(path, hists):
     with open(path, "w") as f:
         for h in hists:
@@ -345,6 +381,41 @@ def run_family(ctx, prop):
     allh = hs + hs2
     # 4. validation
     bad, div, done = validate(ctx, allh, "main")
+    if prop == "C04":
+        # silence also on the way out: the real Auditd.Read with a session that never got its login, cancelled
+        # (scenario of Pipeline!WorkerScenarios, judged by PipelineTrace)
+        from checks import sshdfam
+        wsc = ctx.tlc("PipelineMC", "Pipeline_scen.cfg", workers=1, timeout=120, name="workerscen")
+        ub = [x for x in vlib.tlc_prints(wsc["stdout"], "SCEN")[0] if x["state"] == "unboundcancel"]
+        if not ub:
+            raise Infra("scenario unboundcancel not found")
+        wsp = ctx.path("unbound.json")
+        json.dump(ub, open(wsp, "w"))
+        fdir = ctx.path("fifos")
+        os.makedirs(fdir, exist_ok=True)
+        wtp = ctx.path("trace-unbound.ndjson")
+        ctx.run([ctx.go_build("./cmd/workers"), "-in", wsp, "-out", wtp, "-dir", fdir, "-reps", "2"], timeout=600)
+        wbad, _, _ = sshdfam.validate(ctx, wtp, "unbound", parts=1, module="PipelineTrace", cfg="PipelineTrace.cfg")
+        for b in wbad:
+            if b["what"] == "UncorrelatedEmittedAtShutdown":
+                ctx.violation("UncorrelatedEmittedAtShutdown",
+                              "Auditd.Read was cancelled while a session without login held events: events were written "
+                              "for it on the way out", {"kind": "worker-scenario", "scenario": ub[0], "observed": b["rec"]})
+    wide_lo = wide_hi = -1
+    if prop in ("C16", "C02"):
+        # one cleanup pass over many sessions / logins at once (24 and 40; TrackerTraceWide.cfg has the larger sets)
+        tw, _ = replay_l1(ctx, binp, wide_histories(24) + wide_histories(40) + long_queue_histories(300)
+                          + (long_queue_histories(1100) if not ctx.quick else []), "wide")
+        hsw = split_trace(tw)
+        base = len(allh)
+        for i, hh in enumerate(hsw):
+            r = json.loads(hh[0])
+            r["h"] = base + i
+            hh[0] = json.dumps(r, separators=(",", ":")) + "\n"
+        badw, _, _ = validate(ctx, hsw, "wide", cfg="TrackerTraceWide.cfg", parts=2)
+        bad += badw
+        wide_lo, wide_hi = len(allh), len(allh) + len(hsw)
+        allh = allh + hsw
     # the binding self-test needs accepted histories to corrupt; on a tree that breaks the property it may find none
     # that behave: its verdict is looked at after the violations have been registered
     nself, self_err = 0, None
@@ -416,6 +487,8 @@ def run_family(ctx, prop):
         level = "sessionTracker API (L1)"
         if idxs[0] >= len(hs) + len(hs2):
             level = "Auditd.Read (L2: real parser/reassembler)"
+        if wide_lo <= idxs[0] < wide_hi:
+            level = "sessionTracker API (L1, many sessions / long hold queue)"
         if l3n and idxs[0] >= len(allh) - l3n:
             level = "built daemon (L3: FIFOs, output file)"
         ctx.violation(what, "%s violated on the real code at %s in %d recorded histories; shortest: %s"
